@@ -227,6 +227,33 @@ def run(tier, seed, rng):
             failures.append(dict(kind='oracle', sig='bits-repack', what='Bits: unpack, assign members, pack: a slice does not hold its own value mod 2^w',
                                  cls=class_src(ws, g), raw=raw.hex(), assigned={f"f{j}": v for j, v in sets.items()},
                                  observed=str(r['outcome']), required=want))
+    # ---- two runs back to back, the second one positioned (its head carries .aligned / .at / .shift): each is a run of its own,
+    # sliced from its own bytes at its own position
+    tsrc, tcases, tmeta = "", [], []
+    k = 0
+    for ws1, ws2 in (([4, 4], [4, 4]), ([3, 10, 3], [12, 1, 3]), ([8], [2, 6]), ([1, 7], [8, 8])):
+        for mod, pos in ((".aligned(4)", lambda e: e + (-e) % 4), (".shift(1)", lambda e: e + 1), (".at(5)", lambda e: 5)):
+            for gen_on in (True, False):
+                nm = f"T{k}"; k += 1
+                conf = {} if gen_on else {'generate_for_pack': False, 'generate_for_unpack': False}
+                n1, n2 = sum(ws1) // 8, sum(ws2) // 8
+                start2 = pos(n1)
+                tsrc += f"class {nm}(Packet):\n    __bisturi__ = {conf!r}\n" + "".join(f"    a{i} = Bits({w})\n" for i, w in enumerate(ws1)) + \
+                        "".join(f"    b{i} = Bits({w}){mod if i == 0 else ''}\n" for i, w in enumerate(ws2))
+                for _ in range(3):
+                    r1 = bytes(rng.randrange(256) for _ in range(n1))
+                    r2 = bytes(rng.randrange(256) for _ in range(n2))
+                    raw = r1 + b'.' * (start2 - n1) + r2
+                    tcases.append(dict(cls=nm, op='roundtrip', raw=raw.hex(), offset=0))
+                    tmeta.append((nm, ws1, ws2, r1, r2, raw))
+    tres = run_impl(os.path.join(VERIF, 'harness', 'impl_pkt.py'), dict(header=HEADER_PY, blocks=[dict(name='tworuns', src=tsrc)], modname='c07t', cases=tcases))
+    dist['two_run_cases'] = len(tcases)
+    for (nm, ws1, ws2, r1, r2, raw), o in zip(tmeta, tres['outcomes']):
+        want = ref_unpack(ws1, r1) + ref_unpack(ws2, r2)
+        got = [v for n, v in o['ok']['f'] if not n.startswith('_')] if 'ok' in o else None
+        if got != want or o.get('packed') != {'ok': raw.hex()}:
+            failures.append(dict(kind='oracle', sig='bits-two-runs', what='two bit runs back to back (the second positioned): a member is not the MSB-first slice of its OWN run, or pack does not write each run at its own position',
+                                 cls=[c for c in tsrc.split('class ') if c.startswith(nm + '(')][0].join(['class ', '']), raw=raw.hex(), observed=str(o)[:400], required=want))
     csize = 700
     files = [(f"cases_{i}", HEADER_COQ + "Definition cases : list case := [\n" + ";\n".join(p) + "\n].\nEval vm_compute in (bad 0 cases).\n")
              for i, p in enumerate(shard(lines, csize))]
